@@ -222,6 +222,10 @@ Inductive c20case :=
 | CStats (x : sexit) (nh h : Z) (finished succ : bool) (obs : list sev) (untagged : Z)
 (* connection events of one handler: served connection (one Serve call, its exit)
    or client connection (number of Close calls) *)
+(* the same RPC with, for every event, the number of installed handlers whose tag
+   was present in the context the event was delivered with (TagRPC: in the context
+   it returned) *)
+| CStatsCtx (x : sexit) (nh h : Z) (obs : list (sev * Z))
 | CConnS (x : serve_exit) (obs : list Stats.cev)
 | CConnC (closes : nat) (obs : list Stats.cev).
 
@@ -253,6 +257,12 @@ Definition check (c : c20case) : list nat :=
       (if spec_end succ obs then [] else [5%nat]) ++
       (if spec_shape x finished obs then [] else [6%nat]) ++
       (if untagged =? 0 then [] else [7%nat])
+  | CStatsCtx x nh h obs =>
+      let server := match x with XSU _ | XSS _ => true | _ => false end in
+      let m := map (fun p => (fst p, Z.of_nat (snd p))) (tag_depths server (Z.to_nat nh) (Z.to_nat h) (map fst obs)) in
+      (if list_eqb (fun a b : sev * Z => sev_eqb (fst a) (fst b) && Z.eqb (snd a) (snd b)) m obs then [] else [1%nat]) ++
+      (* the property: every event carries this handler's own tag *)
+      (if forallb (fun p => h + 1 <=? snd p) obs then [] else [7%nat])
   | CConnS x obs =>
       (if list_eqb conn_eqb (serve_events x) obs then [] else [1%nat]) ++
       (if list_eqb conn_eqb [TagConn; ConnBegin true; ConnEnd true] obs then [] else [8%nat])
